@@ -640,7 +640,9 @@ def check_property(pid, tier, res=None, vres=None, quiet=False):
         lines_out.append('KNOWN-FINDING: property=%s %s (%s)' % (pid, what, oid))
     # counterexample search on the real code: whenever the proof is not clean for this property, and always in the thorough tier
     probe = None
-    if violations or tainted_failed or resource or tier == 'thorough':
+    # C10 also covers code outside the verified text (the protocol-name parser, R12): there the probe is the only check,
+    # so it runs in every tier for that property
+    if violations or tainted_failed or resource or tier == 'thorough' or pid in ALWAYS_PROBE:
         probe = P.run_probe(REPO, BUILD)
     pf = (probe or {}).get('findings', {}).get(pid, [])
     pf = [f for f in pf if not any(k['property'] == pid and k['obligation'] == 'probe' and k['site'] in f for k in known)]
@@ -727,6 +729,8 @@ def check_property(pid, tier, res=None, vres=None, quiet=False):
             pid, n_ob, len(fn_list), n_dis, 'HOLDS' if verdict == 0 else 'VIOLATION', 'cached' if res['cache_hit'] else '%.0fs verus' % res['wall_s']))
     return verdict
 
+
+ALWAYS_PROBE = {'C10'}
 
 ASSUMPTIONS_COMMON = [
     'Extraction rules R1-R19 (framework/extract.py, DESIGN.md 2.1) preserve the semantics of /repo/src; dropped items are unverified',
